@@ -79,10 +79,14 @@ func (c *curveCtx[E, S]) selfCheck() error {
 	return nil
 }
 
-// scalarAlphabet: 0, 1, 2, q-1 and one stream-derived value.
+// scalarAlphabet: 0, 1, q-1 and one stream-derived value; thorough (and the replacement alphabet "alt") adds 2.
 func (c *curveCtx[E, S]) scalarAlphabet(label string) []*big.Int {
 	q := c.q()
-	return []*big.Int{bi(0), bi(1), bi(2), new(big.Int).Sub(q, bi(1)), newStream(c.name + "/scalar/" + label).bigBelow(q)}
+	a := []*big.Int{bi(0), bi(1), new(big.Int).Sub(q, bi(1)), newStream(c.name + "/scalar/" + label).bigBelow(q)}
+	if engine.Thorough() || label == "alt" {
+		a = append(a, bi(2))
+	}
+	return a
 }
 
 // scalarChange is one altered scalar together with how it was produced.
